@@ -64,6 +64,10 @@ var (
 		"https://" + strings.Repeat("a", 64) + ".com", "https://" + longHost(254, 'a'), "\x00", "https://exa\x00mple.com",
 		"https://xn--a.com", "https://[::1]", "https://127.0.0.1",
 	}
+	// hosts with ACE labels: acceptance is decided by the IDNA profile (oracle); well-formed, Bidi-violating, bogus
+	originsACE = []string{"https://xn--bcher-kva.example", "https://xn--4db.com", "https://xn--a-0hc.com", "https://xn--a-zhc.example.com:8443",
+		"https://*.xn--a-0hc.com", "http://xn--a-0hc.com.:*", "https://1a.xn--4db", "https://xn--mgbh0fb.xn--4dbc", "https://*.xn--5dbqzzl.example.com",
+		"https://xn--f.com", "https://xn--.com", "https://xn--zca.example", "https://*.shop.xn--mgberp4a5d4ar:8443"}
 	methodsValid   = []string{"PUT", "DELETE", "PATCH", "put", "patch", "GET", "PURGE", "OPTIONS", "options", "Post", "QUERY", "delete"}
 	methodsDefect  = []string{"CONNECT", "connect", "TrAcE", "TRACK", "track", "", "résumé", "a b", "GET,POST", "\x00"}
 	reqHdrsValid   = []string{"Content-Type", "X-Foo", "authorization", "Authorization", "AUTHORIZATION", "x-bar", "X-Bar", "x-foo", "Accept", "x-abc"}
